@@ -167,10 +167,12 @@ impl<T> RawAtomic<T> {
     }
 
     pub fn load<'g>(&self, order: Ordering, _: &'g Guard) -> RawShared<'g, T> {
+        vp!(RAW_LOAD);
         RawShared::from(self.inner.load(order))
     }
 
     pub fn store(&self, val: RawShared<'_, T>, order: Ordering) {
+        vp!(RAW_STORE);
         self.inner.store(val.inner, order);
     }
 
@@ -182,6 +184,7 @@ impl<T> RawAtomic<T> {
         failure: Ordering,
         _: &'g Guard,
     ) -> Result<RawShared<'g, T>, RawShared<'g, T>> {
+        vp!(RAW_CAS);
         self.inner
             .compare_exchange(current.inner, new.inner, success, failure)
             .map(RawShared::from)
@@ -196,6 +199,7 @@ impl<T> RawAtomic<T> {
         failure: Ordering,
         _: &'g Guard,
     ) -> Result<RawShared<'g, T>, RawShared<'g, T>> {
+        vp!(RAW_CASW);
         self.inner
             .compare_exchange_weak(current.inner, new.inner, success, failure)
             .map(RawShared::from)
@@ -206,6 +210,7 @@ impl<T> RawAtomic<T> {
         // HACK: The size and alignment of `Atomic<TaggedCnt<T>>` will be same with `AtomicUsize`.
         // The equality of the sizes is checked by `const_assert!`.
         let inner = unsafe { &*(&self.inner as *const _ as *const AtomicUsize) };
+        vp!(RAW_FOR);
         let prev = inner.fetch_or(low_bits::<T>() & tag, order);
         RawShared::from(prev as *const _)
     }
